@@ -158,6 +158,19 @@ def main():
     if limit:
         work = work[:limit]
     print(f"{len(work)} mutants", flush=True)
+    # a private build cache that is trimmed while the sweep runs: every mutant of the generator rebuilds (and tests)
+    # dozens of packages, and the shared cache would fill the disk
+    cache = "/tmp/pv_sweep_gocache"
+    os.makedirs(cache, exist_ok=True)
+    os.environ["GOCACHE"] = cache
+
+    def trim():
+        try:
+            kb = int(subprocess.run(["du", "-sk", cache], capture_output=True, text=True).stdout.split()[0])
+            if kb > 20 * 1024 * 1024:
+                subprocess.run("go clean -cache", shell=True, env=dict(os.environ), capture_output=True)
+        except Exception:
+            pass
     done = 0
     with open(outp, "a") as fh, cf.ThreadPoolExecutor(max_workers=jobs) as ex:
         for res in ex.map(evaluate, work):
@@ -166,6 +179,8 @@ def main():
             done += 1
             if done % 25 == 0:
                 print(f"{done}/{len(work)}", flush=True)
+                trim()
+    shutil.rmtree(cache, ignore_errors=True)
 
 
 if __name__ == "__main__":
